@@ -133,6 +133,13 @@ func EndBlocker(ctx sdk.Context, k keeper.Keeper) {
 	// handle the new request batch queue
 	k.IterateNewRequestBatch(ctx, ctx.BlockHeight(), newRequestBatchHandler)
 
+	// a context started or created from inside a callback during the pass above was queued for this
+	// height after the queue had been read: keep it scheduled, its batch is tried in the next block
+	k.IterateNewRequestBatch(ctx, ctx.BlockHeight(), func(requestContextID tmbytes.HexBytes, _ types.RequestContext) {
+		k.DeleteNewRequestBatch(ctx, requestContextID, ctx.BlockHeight())
+		k.AddNewRequestBatch(ctx, requestContextID, ctx.BlockHeight()+1)
+	})
+
 	for provider, requests := range providerRequests {
 		requestsJSON, _ := json.Marshal(requests)
 		str := strings.Split(provider, ".")
